@@ -37,6 +37,8 @@ func (e *Engine) StructuralObligations(want map[string]bool) ([]*Obligation, err
 				o.StructOK, o.StructMsg = checkConfineRecover(c.Fn)
 			case "defers_before_calls":
 				o.StructOK, o.StructMsg = checkDefersBeforeCalls(c.Fn, sc.Args)
+			case "stores_before_calls":
+				o.StructOK, o.StructMsg = e.checkStoresBeforeCalls(c.Fn, sc.Args)
 			case "no_global_stores":
 				o.StructOK, o.StructMsg = e.checkNoGlobalStores(c.Fn, sc.Args)
 			default:
@@ -46,6 +48,7 @@ func (e *Engine) StructuralObligations(want map[string]bool) ([]*Obligation, err
 		}
 	}
 	out = append(out, e.globalReadOnlyObligations(want)...)
+	out = append(out, e.writersObligations(want)...)
 	gs, err := e.guardObligations(want)
 	if err != nil {
 		return nil, err
@@ -543,4 +546,129 @@ func writesGlobal(fn *ssa.Function, g *ssa.Global) string {
 		}
 	}
 	return ""
+}
+
+// writersObligations: the restricted fields are stored to (directly, or through a slice/map loaded from them)
+// only inside the allowed functions and the function literals they contain.
+func (e *Engine) writersObligations(want map[string]bool) []*Obligation {
+	var out []*Obligation
+	for _, w := range e.Writers {
+		if !hasProp(w.Props, want) {
+			continue
+		}
+		ok, msg := true, ""
+		heapSet := map[string]bool{}
+		for _, h := range w.Heaps {
+			heapSet[h] = true
+		}
+		for _, sp := range e.SSAPkgs {
+			if !e.inModule(sp.Pkg) {
+				continue
+			}
+			for _, fn := range allFunctions(sp) {
+				allowed := false
+				for f := fn; f != nil; f = f.Parent() {
+					if w.Allowed[f] {
+						allowed = true
+					}
+				}
+				if allowed {
+					continue
+				}
+				for _, b := range fn.Blocks {
+					for _, in := range b.Instrs {
+						st, isStore := in.(*ssa.Store)
+						if !isStore {
+							continue
+						}
+						if fa := fieldAddrRoot(st.Addr); fa != nil {
+							stt := fa.X.Type().Underlying().(*types.Pointer).Elem()
+							if types.Identical(stt, w.Struct) {
+								h, _, _ := e.fieldHeap(stt, fa.Field)
+								if heapSet[h] {
+									ok, msg = false, fmt.Sprintf("%s stores to %s.%s", funcDisplayName(fn), w.Type, fieldNameOf(fa))
+								}
+							}
+						}
+					}
+				}
+			}
+		}
+		label := w.Label
+		if label == "" {
+			label = "writers"
+		}
+		out = append(out, &Obligation{Name: fmt.Sprintf("writers#%s:%s", w.Type, label), Func: "module", Kind: "structural", Props: w.Props,
+			Structu: true, StructOK: ok, StructMsg: msg, Src: fmt.Sprintf("fields of %s are written only by %v", w.Type, w.Only)})
+	}
+	return out
+}
+
+// fieldAddrRoot: the struct field a store address ultimately designates (directly or via element/slice of it).
+func fieldAddrRoot(v ssa.Value) *ssa.FieldAddr {
+	switch v := v.(type) {
+	case *ssa.FieldAddr:
+		return v
+	case *ssa.IndexAddr:
+		if u, ok := v.X.(*ssa.UnOp); ok {
+			return fieldAddrRoot(u.X)
+		}
+		return fieldAddrRoot(v.X)
+	}
+	return nil
+}
+
+// checkStoresBeforeCalls <TypeName> <calleePrefix>: no store to a field of the struct type is reachable after a
+// call to a callee whose name starts with the prefix (the captured data is complete before processing starts).
+func (e *Engine) checkStoresBeforeCalls(fn *ssa.Function, args []string) (bool, string) {
+	if len(args) < 2 {
+		return false, "stores_before_calls needs a type name and a callee prefix"
+	}
+	tname, prefix := args[0], args[1]
+	isTargetStore := func(in ssa.Instruction) bool {
+		st, ok := in.(*ssa.Store)
+		if !ok {
+			return false
+		}
+		fa := fieldAddrRoot(st.Addr)
+		if fa == nil {
+			return false
+		}
+		stt := fa.X.Type().Underlying().(*types.Pointer).Elem()
+		if n, ok := stt.(*types.Named); ok {
+			return n.Obj().Name() == tname
+		}
+		return false
+	}
+	// blocks reachable from b (excluding b's own earlier instructions)
+	for _, b := range fn.Blocks {
+		for i, in := range b.Instrs {
+			c, ok := in.(*ssa.Call)
+			if !ok || !strings.HasPrefix(calleeName(&c.Call), prefix) {
+				continue
+			}
+			for _, later := range b.Instrs[i+1:] {
+				if isTargetStore(later) {
+					return false, fmt.Sprintf("a store to %s follows the call to %s", tname, calleeName(&c.Call))
+				}
+			}
+			seen := map[*ssa.BasicBlock]bool{}
+			stack := append([]*ssa.BasicBlock{}, b.Succs...)
+			for len(stack) > 0 {
+				n := stack[len(stack)-1]
+				stack = stack[:len(stack)-1]
+				if seen[n] {
+					continue
+				}
+				seen[n] = true
+				for _, in2 := range n.Instrs {
+					if isTargetStore(in2) {
+						return false, fmt.Sprintf("a store to %s is reachable after the call to %s", tname, calleeName(&c.Call))
+					}
+				}
+				stack = append(stack, n.Succs...)
+			}
+		}
+	}
+	return true, ""
 }
